@@ -20,8 +20,8 @@ Definition bstep (b : bcfg) (s : st) (e : bevent) : st * bobs * list syscall :=
   | MergeTick ord =>
     match b_policy b with
     | PNever => (s, ONone, [])                    (* the task returned before its first sleep *)
-    | PAlways =>
-      if can_merge PAlways (b_trig b) s
+    | p =>
+      if can_merge p (b_trig b) s
       then match merge (b_cfg b) s ord with
            | ROk (s', _, t) => (s', OMerged, t)
            | _ => (s, OMerged, [])                (* a failed merge is logged, the task goes on *)
@@ -55,6 +55,19 @@ Theorem always_merges_iff_triggered b s ord : b_policy b = PAlways ->
 Proof.
   intros Hp. unfold bstep. rewrite Hp. destruct (can_merge PAlways (b_trig b) s); [|reflexivity].
   destruct (merge (b_cfg b) s ord) as [[[s' u] t]| |]; reflexivity.
+Qed.
+
+(* with policy `window`, a wake-up inside the hours behaves as `always`, a wake-up outside them merges nothing *)
+Theorem window_tick b s ord a z h : b_policy b = PWindow a z h ->
+  snd (fst (bstep b s (MergeTick ord))) =
+  if (a <=? h) && (h <=? z) then (if can_merge PAlways (b_trig b) s then OMerged else OSkipped) else OSkipped.
+Proof.
+  intros Hp. unfold bstep. rewrite Hp.
+  destruct (N.leb_spec a h) as [H1|H1]; [destruct (N.leb_spec h z) as [H2|H2]|]; cbn [andb].
+  - rewrite window_inside by lia. destruct (can_merge PAlways (b_trig b) s); [|reflexivity].
+    destruct (merge (b_cfg b) s ord) as [[[s' u] t]| |]; reflexivity.
+  - rewrite window_outside by lia. reflexivity.
+  - rewrite window_outside by lia. reflexivity.
 Qed.
 
 (* with interval sync, every wake-up of the sync task forces the file that is active at that instant *)
